@@ -37,6 +37,7 @@ Definition concat2 (axis : nat) (a b : tensor Z) : tensor Z :=
            (fun i => if (nth axis i 0 <? da)%nat then get 0 a i
                      else get 0 b (map (fun k => if Nat.eqb k axis then (nth k i 0 - da)%nat else nth k i 0%nat) (seq 0 (List.length i)))).
 Definition concat_compatible (axis : nat) (a b : tval) : bool :=
+  dtype_eqb (dt a) (dt b) &&      (* one element type for all inputs (as repaired: a type error instead of the library's panic) *)
   Nat.eqb (List.length (sh a)) (List.length (sh b)) &&
   forallb (fun k => Nat.eqb k axis || Nat.eqb (nthz (sh a) k) (nthz (sh b) k)) (seq 0 (List.length (sh a))).
 Definition concat_value (axis : nat) (ts : list tval) : option tval :=
